@@ -106,14 +106,36 @@ func (ro *Roles) retrigger(r *Report, rule string) {
 		}
 	}
 	for _, e := range evs {
-		res := ro.dequeueCallAfter(e.in.Parent(), e.in)
-		if res.Found && e.in.Parent() != e.fn {
-			// the helper returns without the dequeue: its caller must do it on every path after the call
-			if at := ro.liftTo(e.fn, e.in); at != nil {
-				res = ro.dequeueCallAfter(e.fn, at)
+		// a helper that returns without the dequeue: its caller (level by level up to the anchor) must do it
+		// on every path after the call
+		var res PathResult
+		var covered func(in ssa.Instruction, depth int) bool
+		covered = func(in ssa.Instruction, depth int) bool {
+			res = ro.dequeueCallAfter(in.Parent(), in)
+			if !res.Found {
+				return true
 			}
+			if in.Parent() == e.fn || depth > 3 {
+				return false
+			}
+			var sites []ssa.Instruction
+			for _, f := range region(e.fn) {
+				for _, ci := range findCalls(f, func(_ string, c *ssa.CallCommon) bool { return c.StaticCallee() == in.Parent() }) {
+					sites = append(sites, ci)
+				}
+			}
+			if len(sites) == 0 {
+				return false
+			}
+			for _, s := range sites {
+				if !covered(s, depth+1) {
+					return false
+				}
+			}
+			return true
 		}
-		r.Check(!res.Found, rule, FuncName(e.fn)+": "+e.what, w.InstrPos(e.in),
+		okEv := covered(e.in, 0)
+		r.Check(okEv, rule, FuncName(e.fn)+": "+e.what, w.InstrPos(e.in),
 			"every path from the event to a return passes a call of the dequeue function",
 			"after this event a return is reachable without a dequeue attempt ("+res.String()+"): a free slot or an eligible head is not noticed until some unrelated event happens — queued jobs can wait forever")
 	}
